@@ -12,6 +12,9 @@ RULE = ("scenarios {1 command; 1 experiment; chain of 2; 2 parallel + dependent 
         "internal error; every virtual process that was running at the injection point has its process group in a killpg(SIGTERM) "
         "call by the end; the index holds no row for a task whose child had not exited 0. non-trivial = injection point reached with "
         "a distinct (function, line, number of live processes); distinct = that triple per scenario"
+        " A third family delivers SIGINT / SIGTERM through the process's actual signal disposition while each task is in flight, for "
+        "every combination of inherited dispositions {default, ignored} of the two signals (same oracle); a SIGTERM sent with kill() to a "
+        "group leader alone does not count as signalling the group."
         ' One scenario is a git project with cached versions at ancestor commits (planning talks to git before anything runs).')
 ASSUMPTIONS = [
     "one signal per execution; two granularities: every Python line of Conductor code (arrival inside a C call surfaces there), and every "
@@ -60,7 +63,75 @@ def items(tier):
     for i, c in enumerate(scenarios(tier)[:6]):
         for ch in range(NCHUNKS // 3):
             out.append({"case": c, "chunk": ch, "nchunks": NCHUNKS // 3, "scn_index": i, "bound": 0, "granularity": "evalbreaker"})
+    # third family: the signal is taken by whatever disposition the process has at that moment - for every disposition `cond` can
+    # inherit from its launcher (default, ignored: `cmd &` in a non-interactive shell, nohup-like wrappers), for both signals,
+    # while each process task is in flight
+    for i, c in enumerate(scenarios(tier)[:6]):
+        out.append({"kind": "disposition", "case": c, "scn_index": i})
     return out
+
+
+DISPOSITIONS = ["default", "ignored"]
+
+
+def run_disposition(item, res, found):
+    import signal
+    case = item["case"]
+    base = rungrid.make_scenario(case)
+    ids = [k for k in base["behaviours"]] if base.get("behaviours") else []
+    from .. import graphs
+    n = len(case["g"])
+    keys = ["//:%s" % graphs.node_name(i) for i in range(n) if case["kinds"][i] in ("cmd", "exp")]
+    for key in keys:
+        for signame in ("SIGINT", "SIGTERM"):
+            for disp_int in DISPOSITIONS:
+                for disp_term in DISPOSITIONS:
+                    scn = rungrid.make_scenario(case)
+                    scn["behaviours"] = {k: dict(v) for k, v in (scn.get("behaviours") or {}).items()}
+                    scn["behaviours"].setdefault(key, {}).update({"sigint_while_running": True, "abort_signal": signame})
+                    old = {s_: signal.getsignal(s_) for s_ in (signal.SIGINT, signal.SIGTERM)}
+                    try:
+                        signal.signal(signal.SIGINT, signal.SIG_IGN if disp_int == "ignored" else signal.default_int_handler)
+                        signal.signal(signal.SIGTERM, signal.SIG_IGN if disp_term == "ignored" else signal.SIG_DFL)
+                        obs = explore.execute(scn, [], allow_unconsumed=True, timeout=5)
+                    finally:
+                        for s_, h in old.items():
+                            signal.signal(s_, h)
+                    res["evals"] += 1
+                    art = {"kind": "disposition", "case": case, "task": key, "signal": signame, "inherited": [disp_int, disp_term]}
+                    where = "%s while %s runs (inherited dispositions: SIGINT %s, SIGTERM %s)" % (signame, key, disp_int, disp_term)
+                    evs = [e for e in obs.vk.log if e[0] == "sigint"]
+                    if not evs:
+                        continue   # the task never ran (cached / skipped)
+                    res["sigs"].add(explore.sig([item["scn_index"], key, signame, disp_int, disp_term]))
+                    running, exited0 = evs[0][3], set(evs[0][4])
+
+                    def viol(k, what):
+                        found.setdefault(k, (what, art))
+
+                    r = obs.res
+                    if isinstance(r.exc, driver.HarnessTimeout) or r.timed_out:
+                        viol("signal:hang", "%s: cond does not exit" % where)
+                        continue
+                    if r.exc is not None:
+                        viol("signal:%s" % type(r.exc).__name__, "%s: cond ends with %s: %s instead of reporting the abort" % (where, type(r.exc).__name__, r.exc))
+                    elif r.exit == 0:
+                        viol("signal:exit-zero", "%s: the run carried on and exited 0 (%s)" % (where, "the signal was ignored" if any(e[0] == "signal-ignored" for e in obs.vk.log) else "no abort"))
+                    elif "aborted" not in r.err_text:
+                        viol("signal:not-reported", "%s: exit %r but stderr %r" % (where, r.exit, r.err_text[:200]))
+                    termed = {pgid for pgid, sg in obs.vk.killpg_calls if sg == 15}
+                    for pid, k2 in running:
+                        if pid not in termed:
+                            viol("signal:not-terminated", "%s: the process group of %s (pid %d) never received SIGTERM" % (where, k2, pid))
+                    pre = {(r_[0], r_[1]) for r_ in (scn.get("index_rows") or [])}
+                    for row in obs.rows or []:
+                        if (row[0], row[1]) in pre:
+                            continue
+                        if row[0] not in exited0 and not any(p.key == row[0] and p.status == 0 for p in obs.vk.procs.values()):
+                            viol("signal:unfinished-recorded", "%s: version recorded for %s whose process had not exited 0" % (where, row[0]))
+                    if res["sample"] is None:
+                        res["sample"] = {"argv": scn["argv"], "signal": signame, "while_running": key, "inherited": [disp_int, disp_term],
+                                         "exit": r.exit, "stderr": r.err_text[:80]}
 
 
 def schedules(scn, bound=0):
@@ -117,6 +188,11 @@ def check(inj, state, obs, viol_cb, art):
 def run_item(item, tier):
     res = {"evals": 0, "sigs": set(), "violations": [], "counters": {}, "sample": None}
     found = {}
+    if item.get("kind") == "disposition":
+        run_disposition(item, res, found)
+        for key, (what, art) in found.items():
+            res["violations"].append({"key": key, "what": what, "artefact": art})
+        return res
     scn = rungrid.make_scenario(item["case"])
     gran = item.get("granularity", "line")
     nchunks = item.get("nchunks", NCHUNKS)
@@ -155,6 +231,11 @@ def run_item(item, tier):
 
 
 def replay(artefact):
+    if artefact.get("kind") == "disposition":
+        res = {"evals": 0, "sigs": set(), "sample": None}
+        found = {}
+        run_disposition({"case": artefact["case"], "scn_index": -1}, res, found)
+        return [(k, w) for k, (w, a) in found.items()]
     scn = rungrid.make_scenario(artefact["case"])
     warm = inject.AbortInjector(None, granularity=artefact.get("granularity", "line"))
     explore.execute(scn, artefact["choices"], tracer=warm)
